@@ -154,6 +154,12 @@ def pool_first_failure(n, scale, shift, lo_mult, hi_mult, mode):
             for acc in (lo - 1, lo, lo + 1):
                 if amin <= acc <= amax and bad(acc):
                     return acc
+    else:   # the quotients at both ends of the range and around zero
+        for j in sorted({lo_mult, lo_mult + 1, -1, 0, 1, 2, hi_mult - 1, hi_mult}):
+            lo = ((2 * j - 1) * n + 1) // 2
+            for acc in (lo - 1, lo, lo + 1):
+                if amin <= acc <= amax and bad(acc):
+                    return acc
     for d in range(1, 9):
         if (d - n) % 2:
             continue
